@@ -147,7 +147,11 @@ func (s *stackGen) stmts(ind, depth, n int, vars []string) []string {
 		switch {
 		case x < 8:
 			v := s.fresh("v")
-			s.line(ind, "%s := %s", v, s.expr(vars, 2))
+			e := s.expr(vars, 2)
+			if !strings.ContainsAny(e, "abcdefghijklmnopqrstuvwxyz") { // a constant expression would be an int, not an int32, in the reference
+				e = "one(" + e + ")"
+			}
+			s.line(ind, "%s := %s", v, e)
 			s.line(ind, "_ = %s", v)
 			vars = append(vars, v)
 		case x < 14 && len(s.rw(vars)) > 0:
@@ -678,6 +682,8 @@ func cmdC07Script(seed uint64, n int, dir string) {
 			st.Histogram["test-table string does not terminate (skipped)"]++
 		}
 	}
+	// (c) frame hygiene: fresh frames start from nil slots (see c07hyg.go)
+	cmdC07Hygiene(r, st, (n+2)/3, kinds)
 	for k, v := range kinds {
 		st.Histogram["construct:"+k] = v
 	}
